@@ -70,7 +70,7 @@ func (e *Env) getErrorRules(l *facts.Level, wantSentinel func(kind string) []str
 	}
 	who := fname(ge)
 	sf := e.P.SSAFunc(ge)
-	leaves, err := ir.Leaves(sf, ir.LeafOptions{Forward: true})
+	leaves, err := ir.Leaves(sf, ir.LeafOptions{Forward: true, Inline: e.inlineHelpers()})
 	if err != nil {
 		c.Undecided("validity-coverage", who, e.P.Pos(ge.Pos()), err.Error())
 		return
@@ -156,6 +156,11 @@ func (e *Env) getErrorRules(l *facts.Level, wantSentinel func(kind string) []str
 				}
 			}
 		}
+		if kind == "" {
+			c.Fail("validity-rejections", cons, e.P.Pos(lf.Pos), "GetError reports an error for a reason other than a nil receiver, the embedded level's error or an unknown/invalid field of its own level: "+clip(guardString(lf)))
+		} else {
+			c.Ok("validity-rejections", cons, e.P.Pos(lf.Pos), "error caused by: "+kind)
+		}
 		switch kind {
 		case "":
 			c.Undecided("sentinel-pairing", cons, e.P.Pos(lf.Pos), "cannot classify the condition causing this error: "+guardString(lf))
@@ -185,7 +190,7 @@ func (e *Env) groupEmptiness(l *facts.Level) {
 		return
 	}
 	who := fname(ie)
-	leaves, err := ir.Leaves(e.P.SSAFunc(ie), ir.LeafOptions{Forward: true})
+	leaves, err := ir.Leaves(e.P.SSAFunc(ie), ir.LeafOptions{Forward: true, Inline: e.inlineHelpers()})
 	if err != nil {
 		c.Undecided("group-emptiness", who, e.P.Pos(ie.Pos()), err.Error())
 		return
